@@ -1,4 +1,201 @@
-//! engine `xmlser` (stub)
-pub fn run(_fields: &[&str]) -> String {
-    "unimplemented".to_string()
+//! engine `xmlser`: the real `xml5ever::serialize::serialize` on an RcDom tree, then the real
+//! re-parse of the produced text.
+//!
+//! case fields:
+//!   `tree <dump>`    document children in the dump syntax of engine `xmltb` (`-` = no children);
+//!                    the tree is built node by node (any QualName, also ones no parser produces)
+//!   `src <chunks>`   XML text parsed first by the real parser (no Lean model for this mode)
+//! output: `ser=<text>;err=<codes>;tree=<dump>` (err/tree = re-parse of the serialized text);
+//!         `src` mode prefixes `in=<dump of the first parse>;`
+use super::xmltb::{dump_children, dump_dom, dhex, parse_chunks, undhex, undhex_opt};
+use markup5ever::{Attribute, LocalName, Namespace, Prefix, QualName};
+use markup5ever_rcdom::{Handle, Node, NodeData, RcDom, SerializableHandle};
+use std::cell::RefCell;
+use std::rc::Rc;
+use tendril::{StrTendril, TendrilSink};
+use xml5ever::driver::parse_document;
+use xml5ever::serialize::serialize;
+
+struct P<'a> {
+    s: &'a [u8],
+    i: usize,
+}
+
+impl<'a> P<'a> {
+    fn eat(&mut self, lit: &str) -> bool {
+        if self.s[self.i..].starts_with(lit.as_bytes()) {
+            self.i += lit.len();
+            true
+        } else {
+            false
+        }
+    }
+    /// a run of `[0-9a-f.~-]`
+    fn word(&mut self) -> &'a str {
+        let st = self.i;
+        while self.i < self.s.len()
+            && matches!(self.s[self.i], b'0'..=b'9' | b'a'..=b'f' | b'.' | b'-' | b'~')
+        {
+            self.i += 1;
+        }
+        std::str::from_utf8(&self.s[st..self.i]).unwrap_or("")
+    }
+    fn string(&mut self) -> Option<String> {
+        undhex(self.word())
+    }
+    fn tendril(&mut self) -> Option<StrTendril> {
+        Some(StrTendril::from_slice(&self.string()?))
+    }
+    fn name(&mut self) -> Option<QualName> {
+        let p = undhex_opt(self.word())?;
+        if !self.eat(":") {
+            return None;
+        }
+        let ns = self.string()?;
+        if !self.eat(":") {
+            return None;
+        }
+        let l = self.string()?;
+        Some(QualName::new(
+            p.map(|p| Prefix::from(&*p)),
+            Namespace::from(&*ns),
+            LocalName::from(&*l),
+        ))
+    }
+    fn nodes(&mut self, parent: &Handle) -> Option<()> {
+        loop {
+            if self.i >= self.s.len() || self.s[self.i] == b')' {
+                return Some(());
+            }
+            let node = self.node()?;
+            node.parent.set(Some(Rc::downgrade(parent)));
+            parent.children.borrow_mut().push(node);
+        }
+    }
+    fn node(&mut self) -> Option<Handle> {
+        if self.eat("t[") {
+            let t = self.tendril()?;
+            if !self.eat("]") {
+                return None;
+            }
+            Some(Node::new(NodeData::Text {
+                contents: RefCell::new(t),
+            }))
+        } else if self.eat("c[") {
+            let t = self.tendril()?;
+            if !self.eat("]") {
+                return None;
+            }
+            Some(Node::new(NodeData::Comment { contents: t }))
+        } else if self.eat("p[") {
+            let t = self.tendril()?;
+            if !self.eat(":") {
+                return None;
+            }
+            let d = self.tendril()?;
+            if !self.eat("]") {
+                return None;
+            }
+            Some(Node::new(NodeData::ProcessingInstruction {
+                target: t,
+                contents: d,
+            }))
+        } else if self.eat("d[") {
+            let n = self.tendril()?;
+            if !self.eat(":") {
+                return None;
+            }
+            let p = self.tendril()?;
+            if !self.eat(":") {
+                return None;
+            }
+            let s = self.tendril()?;
+            if !self.eat("]") {
+                return None;
+            }
+            Some(Node::new(NodeData::Doctype {
+                name: n,
+                public_id: p,
+                system_id: s,
+            }))
+        } else if self.eat("e[") {
+            let name = self.name()?;
+            let mut attrs = vec![];
+            while self.eat(" ") {
+                let an = self.name()?;
+                if !self.eat("=") {
+                    return None;
+                }
+                let v = self.tendril()?;
+                attrs.push(Attribute { name: an, value: v });
+            }
+            if !self.eat("](") {
+                return None;
+            }
+            let el = Node::new(NodeData::Element {
+                name,
+                attrs: RefCell::new(attrs),
+                template_contents: RefCell::new(None),
+                mathml_annotation_xml_integration_point: false,
+            });
+            self.nodes(&el)?;
+            if !self.eat(")") {
+                return None;
+            }
+            Some(el)
+        } else {
+            None
+        }
+    }
+}
+
+fn build(dump: &str) -> Option<Handle> {
+    let doc = Node::new(NodeData::Document);
+    if dump == "-" {
+        return Some(doc);
+    }
+    let mut p = P {
+        s: dump.as_bytes(),
+        i: 0,
+    };
+    p.nodes(&doc)?;
+    if p.i != p.s.len() {
+        return None;
+    }
+    Some(doc)
+}
+
+fn ser_and_reparse(doc: Handle) -> String {
+    let mut buf: Vec<u8> = vec![];
+    let h: SerializableHandle = doc.into();
+    if serialize(&mut buf, &h, Default::default()).is_err() {
+        return "io-error".into();
+    }
+    let text = String::from_utf8_lossy(&buf).into_owned();
+    let mut parser = parse_document(RcDom::default(), Default::default());
+    parser.process(StrTendril::from_slice(&text));
+    let re = parser.finish();
+    format!("ser={};{}", dhex(&text), dump_dom(&re))
+}
+
+pub fn run(fields: &[&str]) -> String {
+    match fields {
+        ["tree", dump] => match build(dump) {
+            Some(doc) => ser_and_reparse(doc),
+            None => "bad-case".into(),
+        },
+        ["src", chunks] => match parse_chunks(chunks) {
+            Some(dom) => {
+                let mut t = String::new();
+                dump_children(&dom.document, &mut t);
+                format!(
+                    "in={};{}",
+                    if t.is_empty() { "-" } else { &t },
+                    ser_and_reparse(dom.document.clone())
+                )
+            },
+            None => "bad-case".into(),
+        },
+        _ => "bad-case".into(),
+    }
 }
